@@ -424,6 +424,10 @@ def run(options: argparse.Namespace) -> int:
 
     if names is None:
         return 1
+    for name in names:
+        # the checksum file of an earlier run does not belong to the archive just written
+        if os.path.exists(name + '.sha256sum'):
+            os.unlink(name + '.sha256sum')
     rc = 0
     if not options.no_tests:
         # Check only one.
